@@ -6,7 +6,7 @@ from math import factorial
 
 import numpy as np
 
-from .. import gens
+from .. import forms, gens
 from ..core import Case, call
 from ..oracles import as_real_array
 from ..ref import quat as rq
@@ -45,7 +45,11 @@ def generate(rng, tier, shard, nshards):
         dt = gens.logu(rng, 1e-3, 5e-2)
         yield Case("series", "series", q0=gens.unit(rng), w=gens.axis(rng) * x / dt, dt=dt)
     for i in range(gens.budget(160, tier, nshards)):
-        yield Case("step", "step", q0=gens.unit(rng), w=gens.axis(rng) * gens.logu(rng, 1e-2, 10.0), dt=gens.logu(rng, 1e-3, 5e-2), m=gens.vec3(rng, 1.0, 100.0))
+        # every 4th case starts from a whole-number quaternion (identity, +-i, +-j, +-k: what a caller types as [1, 0, 0, 0]) with whole-number rates
+        whole = i % 4 == 3
+        yield Case("step", "step", q0=gens.unit_quat(rng, "axis_aligned") if whole else gens.unit(rng),
+                   w=rng.integers(-9, 10, 3).astype(float) + (0 if i % 8 == 3 else 0.25) if whole else gens.axis(rng) * gens.logu(rng, 1e-2, 10.0),
+                   dt=gens.logu(rng, 1e-3, 5e-2), m=gens.vec3(rng, 1.0, 100.0))
     for i in range(gens.budget(80, tier, nshards)):
         N = int(rng.integers(20, 201))
         dt = gens.logu(rng, 1e-3, 5e-2)
@@ -142,6 +146,19 @@ def check_step(case, ctx):
             if q is not None:
                 ctx.le("dead-reckoning step = normalised first-order step q + dt/2 q (0,w) (each in its own convention)",
                        np.abs(q / np.linalg.norm(q) - ref).max(), 1e-14, {"got": q, "expected": ref, "x": float(np.linalg.norm(w) * dt)}, route=r)
+    if forms.integral(q0) and np.any(w):
+        zi = np.zeros(3)
+        for r, fn in (("first-order/Madgwick.updateIMU", lambda q, g: F.Madgwick().updateIMU(q, g, zi.copy(), dt=dt)),
+                      ("first-order/Madgwick.updateMARG", lambda q, g: F.Madgwick().updateMARG(q, g, zi.copy(), m.copy(), dt=dt)),
+                      ("first-order/Mahony.updateIMU", lambda q, g: F.Mahony().updateIMU(q, g, zi.copy(), dt=dt)),
+                      ("first-order/Mahony.updateMARG", lambda q, g: F.Mahony().updateMARG(q, g, zi.copy(), m.copy(), dt=dt)),
+                      ("first-order/AQUA.updateIMU", lambda q, g: F.AQUA().updateIMU(q, g, zi.copy(), dt=dt)),
+                      ("first-order/AQUA.updateMARG", lambda q, g: F.AQUA().updateMARG(q, g, zi.copy(), m.copy(), dt=dt)),
+                      ("first-order/EKF.f", lambda q, g: F.EKF().f(q, g, dt)),
+                      ("first-order/ROLEQ.attitude_propagation", lambda q, g: F.ROLEQ().attitude_propagation(q, g, dt)),
+                      ("first-order/AngularRate.series1", lambda q, g: F.AngularRate().update(q, g, method="series", order=1, dt=dt)),
+                      ("closed/update", lambda q, g: F.AngularRate().update(q, g, method="closed", dt=dt))):
+            forms.invariant(ctx, r, fn, [q0, w])
     # the same step from an instance that has already processed ordinary samples (carrying whatever internal state the
     # filter keeps: integral bias, adaptive gain, previous sample), and from one built with a non-zero initial bias
     wr = np.random.default_rng(int(abs(w[0]) * 1e9) % (2 ** 31))
